@@ -222,7 +222,7 @@ GROUPS += [
                         "honoured by dispatch (c11_*) and by parse (c02_v*_extract_*)"],
     },
     {
-        "id": "C02.extract.v4", "property": "C02", "thorough_property": ["C01"], "crate": "core", "stubbing": True, "cbmc_args": FS1100,
+        "id": "C02.extract.v4", "property": "C02", "thorough_property": ["C01"], "priority": 1, "crate": "core", "stubbing": True, "cbmc_args": FS1100,
         "harnesses": ["c02_v4_extract", "c02_v4_recv_tcp_socket", "c02_channel_tcp_attempts_expire"], "jobs": 4, "timeout_s": 900, "mem_gb": 12,
         "functions": ["net::ipv4::Ipv4::{extract_probe_proto_resp,calc_udp_checksum,recv_tcp_socket}", "net::channel::Channel::recv_tcp_sockets (expiry)",
                       "net::ipv4::{extract_echo_request,extract_udp_packet,extract_tcp_packet}"],
@@ -277,7 +277,7 @@ GROUPS += [
     {
         # exact encoding (no field-sensitivity option): with it CBMC reports a spurious counterexample for the
         # marker copy from a &'static [u8] (DESIGN 7.2)
-        "id": "C11.dispatch.v6.dublin", "property": ["C11", "C02"], "crate": "core", "stubbing": True,
+        "id": "C11.dispatch.v6.dublin", "property": ["C11", "C02"], "crate": "core", "stubbing": True, "priority": 1,
         "harnesses": ["c11_v6_dispatch_udp_dublin"], "jobs": 2, "timeout_s": 1800, "mem_gb": 24,
         "functions": ["net::ipv6::Ipv6::{dispatch_udp_probe,dispatch_udp_probe_raw,make_udp_packet}"],
         "stubs": [SOCK_STUB],
